@@ -263,6 +263,27 @@ def gen_itp(rng, tier, rich, big=None):
             ops.append(l)
         while rng.random() < max(p_fill, 0.3):
             ops.append(_filler(rng, rich, True))
+    if rich and not big and rng.random() < 0.08:
+        # a SECOND molecule definition in the same file (a topology that defines two molecules): [ moleculetype ] and
+        # [ atoms ] (and [ bonds ]) occur again; like any repeated section their lines must survive the round trip
+        ops.append(_sec(rng, "moleculetype"))
+        ops.append({"k": "moltype", "name": name + "B", "text": _join(rng, [name + "B", rng.randint(1, 3)], lead=False)})
+        ops.append(_sec(rng, "atoms"))
+        n2 = rng.randint(1, 3)
+        nr2 = [cur + 1 + k_ for k_ in range(n2)]
+        for k_, a_nr in enumerate(nr2):
+            an = "Z%d" % (k_ + 1)
+            ops.append({"k": "atom", "nr": a_nr, "name": an, "resname": "SOLB", "resid": resid + 1,
+                        "text": _join(rng, [a_nr, "opls_%03d" % rng.randint(1, 900), resid + 1, "SOLB", an, k_ + 1, "0.0", "16.0"])
+                        + _trail(rng, rich)})
+        if n2 >= 2:
+            ops.append(_sec(rng, "bonds"))
+            for k_ in range(n2 - 1):
+                ops.append({"k": "bond", "i": nr2[k_], "j": nr2[k_ + 1], "text": _join(rng, [nr2[k_], nr2[k_ + 1], 1])})
+        if rng.random() < 0.5:
+            ops.append(_sec(rng, "position_restraints"))
+            ops.append({"k": "comment", "text": "; only in the second molecule"})
+            ops.append({"k": "other", "text": _join(rng, [nr2[0], 1, 1000, 1000, 1000])})
     final_newline = rng.random() < 0.9
     return ops, final_newline
 
@@ -916,6 +937,8 @@ def execute_c16(trace, ctx):
     n_sec_lines = len(re.findall(r"^\s*\[.*\]", a_text, flags=re.M))
     if n_sec_lines > len(cl[2]):
         ctx.probe("repeated_section_name")
+    if len(re.findall(r"^\s*\[\s*moleculetype\s*\]", a_text, flags=re.M)) > 1:
+        ctx.probe("second_molecule_definition")
     if re.search(r"^[^;\n#]*\S[^;\n]*;\s*$", a_text, flags=re.M):
         ctx.probe("empty_trailing_comment")
     if re.search(r"^;\s*#", a_text, flags=re.M):
